@@ -49,6 +49,20 @@ pub fn view(p: &Placed, server: &mut Server) -> Result<View, String> {
             None => None,
         });
     }
+    // declarations of named types that come with the library (`JsonValue`): from the dependencies
+    for info in &infos {
+        for d in info["dependency_decls"].as_array().into_iter().flatten() {
+            if let Some(decl) = okstr(d, "decl") {
+                if let Ok(m) = tsmodel::parse_module(decl) {
+                    for dd in m.decls {
+                        if !env.contains_key(&dd.name) {
+                            env.insert(dd.name.clone(), dd);
+                        }
+                    }
+                }
+            }
+        }
+    }
     Ok(View { infos, env, tys, problems })
 }
 
@@ -612,7 +626,7 @@ pub fn profile_library() -> Profile {
     p.library_types = true;
     p.max_types = 4;
     p.enums = 25;
-    p.inline = 0;
+    p.inline = 15;
     p.flatten = 0;
     p.docs = 0;
     p.rename = 4;
@@ -627,6 +641,27 @@ pub fn profile_library() -> Profile {
     p.enums = 35;
     p.known_wrappers = std::env::var("VERIF_KNOWN_WRAPPERS").is_ok();
     p
+}
+
+/// the same with the feature-gated third-party types (built with `SlotCfg::ext()`)
+pub fn profile_library_ext() -> Profile {
+    let mut p = profile_library();
+    p.name = "library-ext";
+    p.ext_types = true;
+    p.known_objectid = std::env::var("VERIF_KNOWN_WRAPPERS").is_ok();
+    p
+}
+
+const EXT_CRATES: &[&str] = &["chrono::", "bigdecimal::", "uuid::", "url::", "semver::", "smol_str::", "ordered_float::", "bson::", "indexmap::", "heapless::", "bytes::", "serde_json::"];
+
+pub fn uses_ext(m: &typegen::Module) -> bool {
+    let mut libs = BTreeSet::new();
+    for td in &m.types {
+        for f in td.all_fields() {
+            lib_names(&f.ty, &mut libs);
+        }
+    }
+    libs.iter().any(|n| EXT_CRATES.iter().any(|c| n.starts_with(c)))
 }
 
 fn lib_names(t: &typegen::TyExpr, out: &mut BTreeSet<String>) {
@@ -657,7 +692,9 @@ pub fn c12_module(p: &Placed, server: &mut Server, nvalues: usize, seed: u64) ->
             lib_names(&f.ty, &mut libs);
         }
     }
-    let known_sig = if libs.contains("std::marker::PhantomData") {
+    let known_sig = if libs.contains("bson::oid::ObjectId") {
+        Some("objectid-declared-as-string")
+    } else if libs.contains("std::marker::PhantomData") {
         Some("phantomdata-declared-as-its-parameter")
     } else if libs.contains("std::sync::Weak") {
         Some("weak-declared-as-its-content")
@@ -676,7 +713,8 @@ pub fn c12_module(p: &Placed, server: &mut Server, nvalues: usize, seed: u64) ->
     if !r.failures.is_empty() {
         return r;
     }
-    let parses_strings = libs.iter().any(|n| n.contains("net::") || n.contains("PathBuf"));
+    // (third-party leaves: strings with a grammar, bounded capacities, byte ranges)
+    let parses_strings = libs.iter().any(|n| n.contains("net::") || n.contains("PathBuf") || EXT_CRATES.iter().any(|c| n.starts_with(c)));
     if !parses_strings && known_sig.is_none() {
         let r2 = c02_module(p, server, 32, 16, seed);
         r.evaluations += r2.evaluations;
@@ -739,6 +777,20 @@ pub fn c12(ctx: &Ctx) -> ! {
         }
         let seed = ctx.seed;
         let nvalues = if ctx.thorough() { 256 } else { 64 };
+        let results = for_each_module(ctx, &corpus, |p, s, _| c12_module(p, s, nvalues, seed));
+        collect(&mut out, results, &known, &mut distinct);
+        if !out.violations.is_empty() {
+            break;
+        }
+        // the feature-gated third-party types
+        let modules = gen_modules(ctx, &profile_library_ext(), if ctx.thorough() { 16 * 8 } else { 16 * 5 }, 0xC12E + round as u64 * 7919);
+        let corpus = build(ctx, modules, &subjects::SlotCfg::ext());
+        out.bump("modules_with_third_party_crates", corpus.modules.iter().filter(|m| uses_ext(&m.module)).count() as u64);
+        out.bump("modules", corpus.modules.len() as u64);
+        out.bump("discarded_by_rustc", corpus.discarded_by_rustc as u64);
+        if round == 0 && !corpus.discarded_samples.is_empty() {
+            out.extra.insert("discarded_by_rustc_sample_ext".into(), json!(corpus.discarded_samples[0].chars().take(1500).collect::<String>()));
+        }
         let results = for_each_module(ctx, &corpus, |p, s, _| c12_module(p, s, nvalues, seed));
         collect(&mut out, results, &known, &mut distinct);
         if !out.violations.is_empty() {
@@ -823,7 +875,8 @@ pub fn replay_module(ctx: &Ctx, property: &str, case: &Value) -> Vec<Value> {
     if property == "C15" {
         return crate::e2d::replay_with_twin(&sub, module);
     }
-    let corpus = build(&sub, vec![module], &subjects::SlotCfg::default());
+    let cfg = if uses_ext(&module) { subjects::SlotCfg::ext() } else { subjects::SlotCfg::default() };
+    let corpus = build(&sub, vec![module], &cfg);
     if corpus.modules.is_empty() {
         return vec![json!({"signature": "replay-does-not-compile", "message": format!("the module of the replay file no longer compiles: {}", corpus.discarded_samples.first().cloned().unwrap_or_default())})];
     }
@@ -1124,7 +1177,8 @@ pub fn shrink(ctx: &Ctx, property: &str, failure: &Value, max_rounds: usize) -> 
                 c
             })
             .collect();
-        let corpus = build(ctx, named, &subjects::SlotCfg::default());
+        let cfg = if named.iter().any(uses_ext) { subjects::SlotCfg::ext() } else { subjects::SlotCfg::default() };
+        let corpus = build(ctx, named, &cfg);
         let results = for_each_module(ctx, &corpus, |p, s, cwd| module_check(property, p, s, cwd, ctx));
         let mut hit: Option<(usize, Value)> = None;
         for (i, r) in results {
@@ -1183,7 +1237,8 @@ pub fn regression(ctx: &Ctx, property: &str, known: &[Known], out: &mut Outcome)
     if modules.is_empty() {
         return;
     }
-    let corpus = build(ctx, modules, &subjects::SlotCfg::default());
+    let cfg = if modules.iter().any(uses_ext) { subjects::SlotCfg::ext() } else { subjects::SlotCfg::default() };
+    let corpus = build(ctx, modules, &cfg);
     let results = for_each_module(ctx, &corpus, |p, s, cwd| (p.module.name.clone(), module_check(property, p, s, cwd, ctx)));
     for (_, (name, r)) in results {
         let idx: usize = name[1..].parse().unwrap_or(0);
